@@ -157,3 +157,11 @@ func valString(v Val) string {
 	}
 	return fmt.Sprintf("%T", v)
 }
+
+func isByteElem(t types.Type) bool {
+	if t == nil {
+		return false
+	}
+	b, ok := t.Underlying().(*types.Basic)
+	return ok && b.Kind() == types.Uint8
+}
